@@ -6,17 +6,24 @@ From Verif Require Import Base.Prelude Base.IntCodec Model.StoreLib
 Local Open Scope Z_scope.
 
 (** * Configuration: a map from configuration keys to values. *)
+(** For the store, a vote is a [SetConfig] that is authorised exactly when a
+    member's vote completes the tally. *)
+Definition cop_as_set (o : cop) : bool * bytes * bytes * val :=
+  match o with
+  | CSet alpha id key v => (alpha, id, key, v)
+  | CVote member applied id key v => (member && applied, id, key, v)
+  end.
 Definition spec_caccept (kd : ckind) (o : cop) : bool :=
-  match o with CSet alpha _ key v =>
+  let '(alpha, _, key, v) := cop_as_set o in
     alpha && (length key <=? 58)%nat &&
     match val_bytes v with Some b => (Z.of_nat (length b) <=? 65535) | None => false end &&
-    match kd with CNetmap => true | CNeoFS => is_bytes v end
-  end.
+    match kd with CNetmap => true | CNeoFS => is_bytes v end.
 (** What is read back is the canonical byte form of the value passed. *)
 Definition spec_cval (o : cop) : bytes :=
-  match o with CSet _ _ _ v => default [] (val_bytes v) end.
+  let '(_, _, _, v) := cop_as_set o in default [] (val_bytes v).
+Definition spec_ckey (o : cop) : bytes := let '(_, _, key, _) := cop_as_set o in key.
 Definition spec_cstep (kd : ckind) (m : gmap bytes bytes) (o : cop) : gmap bytes bytes :=
-  match o with CSet _ _ key _ => if spec_caccept kd o then <[key := spec_cval o]> m else m end.
+  if spec_caccept kd o then <[spec_ckey o := spec_cval o]> m else m.
 Definition spec_cinit (pairs : list (bytes * bytes)) : gmap bytes bytes :=
   fold_left (fun m kv => <[fst kv := snd kv]> m) pairs ∅.
 Definition spec_crun (kd : ckind) (m0 : gmap bytes bytes) (ops : list cop) : gmap bytes bytes :=
